@@ -689,4 +689,5 @@ class Connection:
                 yield packets.make_column_definition_41(
                     server_charset=self.server_charset, name="?"
                 )
-            yield self.eof()
+            if not self.deprecate_eof():
+                yield self.eof()
